@@ -63,7 +63,14 @@ def run_unit(cmd, env, timeout, out):
         err = p.stderr[-3000:]
         rc = p.returncode
     except subprocess.TimeoutExpired as e:
+        part = {}
+        if os.path.exists(out + ".partial"):
+            try:
+                part = json.load(open(out + ".partial"))
+            except Exception:  # pylint: disable=broad-except
+                part = {}
         return {"status": "timeout", "wall_s": time.time() - t0,
+                "partial_violations": part.get("violations", []),
                 "stderr": (e.stderr or b"")[-2000:].decode("utf8", "replace")
                 if isinstance(e.stderr, bytes) else str(e.stderr)[-2000:]}
     if os.path.exists(out):
@@ -204,6 +211,8 @@ def main(argv=None):
                 if n is not None:
                     cmd += ["--n", str(n)]
                 to = s.timeout[0 if a.tier == "quick" else 1]
+                if os.environ.get("VP_UNIT_TIMEOUT"):   # harness self-test
+                    to = float(os.environ["VP_UNIT_TIMEOUT"])
                 units.append((s, sh, cmd, out, to))
 
         results = []
@@ -278,6 +287,13 @@ def main(argv=None):
                 ps["timeouts"] += 1
                 print("note: %s/%s shard %d timed out (inconclusive)" % (
                     prop, s.name, sh))
+                # ... but what it had found before is a finding all the same
+                for v in r.get("partial_violations") or []:
+                    cur = violations.get(v["signature"])
+                    if cur is None:
+                        violations[v["signature"]] = dict(v)
+                    else:
+                        cur["count"] += v["count"]
                 continue
             if r.get("status") != "ok":
                 print("HARNESS-ERROR property=%s sub=%s shard=%d: %s" % (
